@@ -334,7 +334,9 @@ func (fw *FileWriter) Sync() error {
 	return fw.file.Sync()
 }
 
-// Close flushes, syncs, and closes the file
+// Close flushes, syncs, and closes the file. Whatever happens, the descriptor is
+// released and the writer counts as closed afterwards: after a failed Close it
+// must not be used again (a new writer repairs the tail of the file).
 func (fw *FileWriter) Close() error {
 	fw.mu.Lock()
 	defer fw.mu.Unlock()
@@ -342,6 +344,7 @@ func (fw *FileWriter) Close() error {
 	if fw.closed {
 		return nil
 	}
+	fw.closed = true
 
 	// Flush remaining buffer
 	if err := fw.flushLocked(); err != nil {
@@ -373,8 +376,21 @@ func (fw *FileWriter) Close() error {
 		return err
 	}
 
-	fw.closed = true
 	return fw.file.Close()
+}
+
+// Abort closes the file without flushing the buffer. It is used after a write,
+// seek or sync error: the file position and the tail of the file can no longer be
+// trusted, so the writer must not be used again. The next writer that opens the
+// file cuts a torn tail back to the last complete block.
+func (fw *FileWriter) Abort() {
+	fw.mu.Lock()
+	defer fw.mu.Unlock()
+	if fw.closed {
+		return
+	}
+	fw.closed = true
+	_ = fw.file.Close()
 }
 
 // GetStats returns current file statistics
